@@ -307,11 +307,14 @@ func (t *Thread) CallContext(def RuntimeContextDef, f func() error) (ctx Runtime
 	defer func() {
 		ctx = t.PopContext()
 		if r := recover(); r != nil {
-			t.closeStack.truncate(h) // No resources to run that, so just discard it.
 			termErr, ok := r.(ContextTerminationError)
 			if !ok {
+				// Not a resource kill (e.g. threadClose when the coroutine is being
+				// closed): the pending to-be-closed values stay on the close stack,
+				// Thread.end runs them.
 				panic(r)
 			}
+			t.closeStack.truncate(h) // No resources to run that, so just discard it.
 			err = termErr
 		}
 	}()
